@@ -131,6 +131,7 @@ def translate(impl_root):
     out.append(_extract_parms(cls[0]))
     out.append(_copy_and_reduce(cls[0]))
     out.append(_dispatch(cls[0]))
+    out.append(_c_wrappers(open(os.path.join(d, "cosmolib_pywrap.c")).read()))
     return HEADER + "\n".join(out) + "\n"
 
 
@@ -432,6 +433,146 @@ def _dispatch(cls):
             raise TranslateError("Cosmo.%s does not return the result of the chosen entry point" % meth)
         out.append("Definition dispatch_src_%s (sa sb ne : bool) : nat := (%s)%%bool." % (meth, expr))
     return "\n".join(out)
+
+
+# ---------------------------------------------------------------------------------------------
+# cosmolib_pywrap.c: every wrapper function -> which C function it calls and how it reads its arguments.
+#   vector wrappers:  n = PyArray_SIZE(<obj>);  for (i=0; i<n; i++) { res[i] = F(self->cosmo, A, B); }   with A, B = v or v[i]
+#   scalar wrappers:  <var> = F(self->cosmo, a, b);  return PyFloat_FromDouble(<var>);
+# Anything else in the loop / a second loop / a second write to res / another statement using i fails closed.
+# ---------------------------------------------------------------------------------------------
+CFUN = ["ez_inverse", "Dc", "Dm", "Da", "Dl", "dV", "V", "scinv", "ez_inverse_integral"]
+_WR_TWO = {"Dc": "Dc", "Dm": "Dm", "Da": "Da", "Dl": "Dl", "scinv": "scinv"}
+
+
+def _c_functions(c):
+    """name -> body text of every PyCosmoObject_<name>(...) { ... } definition"""
+    out = {}
+    for m in re.finditer(r"^PyCosmoObject_(\w+)\(struct PyCosmoObject\* self(?:, PyObject\* args)?\)\s*\{", c, re.M):
+        depth, i = 1, m.end()
+        while depth and i < len(c):
+            depth += {"{": 1, "}": -1}.get(c[i], 0)
+            i += 1
+        if depth:
+            raise TranslateError("pywrap: unbalanced braces in %s" % m.group(1))
+        if m.group(1) in out:
+            raise TranslateError("pywrap: %s defined twice" % m.group(1))
+        out[m.group(1)] = c[m.end():i - 1]
+    return out
+
+
+def _strip_c_comments(t):
+    return re.sub(r"//[^\n]*", "", re.sub(r"/\*.*?\*/", "", t, flags=re.S))
+
+
+def _callee(rhs, what):
+    """F(self->cosmo, args...) or the inlined Dc: self->cosmo->DH*ez_inverse_integral(self->cosmo, a, b)"""
+    rhs = re.sub(r"\s+", "", rhs)
+    m = re.fullmatch(r"self->cosmo->DH\*ez_inverse_integral\(self->cosmo,([^,()]+),([^,()]+)\)", rhs)
+    if m:
+        return "Dc", [m.group(1), m.group(2)]
+    m = re.fullmatch(r"(\w+)\(self->cosmo((?:,[^,()]+)+)\)", rhs)
+    if not m or m.group(1) not in CFUN:
+        raise TranslateError("pywrap %s: right-hand side %r outside the subset" % (what, rhs))
+    return m.group(1), m.group(2).lstrip(",").split(",")
+
+
+def _parse_fmt(body, what):
+    m = re.findall(r'PyArg_ParseTuple\(args,\s*\(char\*\)"(\w+)"((?:,\s*&\w+)+)\)', body)
+    if len(m) != 1:
+        raise TranslateError("pywrap %s: PyArg_ParseTuple not found exactly once" % what)
+    fmt, names = m[0][0], re.findall(r"&(\w+)", m[0][1])
+    if len(fmt) != len(names) or any(ch not in "dO" for ch in fmt):
+        raise TranslateError("pywrap %s: format %r" % (what, fmt))
+    return fmt, names
+
+
+def _c_wrappers(c):
+    fns = _c_functions(_strip_c_comments(c))
+    lines = ["(* cosmolib_pywrap.c, translated: index of the C function called (0 ez_inverse, 1 Dc, 2 Dm, 3 Da, 4 Dl, 5 dV, 6 V,",
+             "   7 scinv, 8 ez_inverse_integral), arg1 read as arg1[i], arg2 read as arg2[i], n = size of arg1, arguments in order *)"]
+    b = lambda x: "true" if x else "false"   # noqa
+
+    def vector(name, expect, nargs):
+        what = name
+        if name not in fns:
+            raise TranslateError("pywrap: %s not found" % name)
+        body = fns[name]
+        fmt, names = _parse_fmt(body, what)
+        if len(fmt) != nargs:
+            raise TranslateError("pywrap %s: %d arguments" % (what, len(fmt)))
+        base = [n_[:-3] if n_.endswith("Obj") else n_ for n_ in names]
+        for ch, n_ in zip(fmt, names):
+            if (ch == "O") != n_.endswith("Obj"):
+                raise TranslateError("pywrap %s: format / variable mismatch" % what)
+        size = re.findall(r"\bn\s*=\s*PyArray_SIZE\((\w+)\)\s*;", body)
+        if len(size) != 1 or size[0] not in names or not size[0].endswith("Obj"):
+            raise TranslateError("pywrap %s: n = PyArray_SIZE(<array argument>) not found exactly once" % what)
+        for ch, n_, bs in zip(fmt, names, base):
+            if ch == "O" and len(re.findall(r"\b%s\s*=\s*\(double\*\s*\)PyArray_DATA\(%s\)\s*;" % (bs, n_), body)) != 1:
+                raise TranslateError("pywrap %s: %s = PyArray_DATA(%s) not found exactly once" % (what, bs, n_))
+        if len(re.findall(r"resObj\s*=\s*PyArray_ZEROS\(1,\s*&n,\s*NPY_FLOAT64,\s*0\)\s*;", body)) != 1 or \
+                len(re.findall(r"\bres\s*=\s*\(double\*\s*\)PyArray_DATA\(resObj\)\s*;", body)) != 1:
+            raise TranslateError("pywrap %s: result is not a zero-initialised float64 array of n slots" % what)
+        loops = re.findall(r"for\s*\(([^)]*)\)\s*\{([^{}]*)\}", body)
+        if len(loops) != 1 or len(re.findall(r"\bfor\b|\bwhile\b|\bgoto\b", body)) != 1:
+            raise TranslateError("pywrap %s: not exactly one loop" % what)
+        if re.sub(r"\s+", "", loops[0][0]) != "i=0;i<n;i++":
+            raise TranslateError("pywrap %s: loop header %r" % (what, loops[0][0]))
+        stmts = [x.strip() for x in loops[0][1].split(";") if x.strip()]
+        if len(stmts) != 1 or not re.match(r"res\[i\]\s*=", stmts[0]):
+            raise TranslateError("pywrap %s: loop body is not the single statement res[i] = ...;" % what)
+        if len(re.findall(r"\bres\s*\[", body)) != 1 or not re.search(r"return\s+resObj\s*;", body):
+            raise TranslateError("pywrap %s: res written elsewhere / resObj not returned" % what)
+        fn, args = _callee(stmts[0].split("=", 1)[1], what)
+        if len(args) != nargs:
+            raise TranslateError("pywrap %s: %s called with %d arguments" % (what, fn, len(args)))
+        flags, order = [], True
+        for k, a in enumerate(args):
+            m = re.fullmatch(r"(\w+)(\[i\])?", a)
+            if not m or m.group(1) not in base:
+                raise TranslateError("pywrap %s: argument %r" % (what, a))
+            pos = base.index(m.group(1))
+            order = order and pos == k
+            if (fmt[pos] == "O") != bool(m.group(2)):
+                raise TranslateError("pywrap %s: %r read %s" % (what, a, "unindexed" if fmt[pos] == "O" else "indexed"))
+            flags.append(bool(m.group(2)))
+        if fn != expect:
+            raise TranslateError("pywrap %s calls %s, expected %s" % (what, fn, expect))
+        if nargs == 2:
+            lines.append("Definition WRAP_%s : nat * bool * bool * bool * bool := (%d%%nat, %s, %s, %s, %s)." % (
+                name, CFUN.index(fn), b(flags[0]), b(flags[1]), b(size[0] == names[0]), b(order)))
+        else:
+            lines.append("Definition WRAP1_%s : nat * bool := (%d%%nat, %s)." % (name, CFUN.index(fn), b(flags[0])))
+
+    def scalar(name, expect, nargs):
+        if name not in fns:
+            raise TranslateError("pywrap: %s not found" % name)
+        body = fns[name]
+        fmt, names = _parse_fmt(body, name)
+        if fmt != "d" * nargs:
+            raise TranslateError("pywrap %s: format %r" % (name, fmt))
+        if re.search(r"\bfor\b|\bwhile\b|\bgoto\b|\bstatic\b", body):
+            raise TranslateError("pywrap %s: loop / static state in a scalar wrapper" % name)
+        asg = re.findall(r"^\s*(\w+)\s*=\s*([^;=]+);", body, re.M)
+        ret = re.findall(r"return\s+PyFloat_FromDouble\((\w+)\)\s*;", body)
+        if len(asg) != 1 or len(ret) != 1 or asg[0][0] != ret[0]:
+            raise TranslateError("pywrap %s: not `x = F(self->cosmo, ...); return PyFloat_FromDouble(x);`" % name)
+        fn, args = _callee(asg[0][1], name)
+        if fn != expect or len(args) != nargs or any(a not in names for a in args):
+            raise TranslateError("pywrap %s: calls %s(%s)" % (name, fn, ", ".join(args)))
+        lines.append("Definition SCALAR_%s : nat * bool := (%d%%nat, %s)." % (name, CFUN.index(fn), b(args == names)))
+
+    for meth in ("Dc", "Dm", "Da", "Dl", "scinv"):
+        scalar(meth, meth, 2)
+        for suf in ("_vec1", "_vec2", "_2vec"):
+            vector(meth + suf, meth, 2)
+    for meth in ("ez_inverse", "dV"):
+        scalar(meth, meth, 1)
+        vector(meth + "_vec", meth, 1)
+    scalar("V", "V", 2)
+    scalar("ez_inverse_integral", "ez_inverse_integral", 2)
+    return "\n".join(lines)
 
 
 def _src(text, node):
